@@ -141,15 +141,19 @@ Definition x_wf (cl : cluster) (r : resource) (revs : list rev) : bool :=
 (* one notification delivered through the real handler and the real lbc.sync *)
 Record ev := { ev_kind : kind; ev_ns : string; ev_name : string; ev_op : op; ev_relevant : bool;
                ev_regen : bool; ev_stale : bool;
-               ev_dep : bool (* the extended resource was observed to depend on the object (create*Ex level) *) }.
+               ev_dep : bool (* the extended resource was observed to depend on the object (create*Ex level) *);
+               ev_material : bool (* the new version differs in what generation reads (the harness knows what it changed);
+                                     false for metadata-only updates *) }.
 
 (* S at event level, on the implementation's outputs only: after the event, regenerating the resource
    from the stores does not change its configuration file *)
 Definition ev_ok (x : ev) : bool :=
   negb (ev_stale x) &&
-  (* ... and a notification about an object the resource depends on, unless the handler's update filter dropped
-     it, makes the controller write the resource's configuration again *)
-  (negb (ev_dep x) || ev_regen x || match ev_op x with Update => negb (ev_relevant x) | _ => false end).
+  (* ... and a notification about an object the resource depends on makes the controller write the resource's
+     configuration again -- unless it is an update that changes nothing generation reads; an update handler that drops
+     a material update (same generation, new UID, new content) is not excused.  [ev_stale] also covers: a controller
+     started afresh on the same cluster writes a different file. *)
+  (negb (ev_dep x) || ev_regen x || match ev_op x with Update => negb (ev_material x) | _ => false end).
 
 Definition ev_spec_ok (evs : list ev) : bool := forallb ev_ok evs.
 
